@@ -371,3 +371,38 @@ def dataset_spec(draw, n_lo=2, n_hi=6, mazes_lo=0, mazes_hi=8, ctors=None, with_
     if with_filters and draw(st.booleans()):
         spec["filters"] = draw(filter_list(allow=filter_allow))
     return spec
+
+
+# ----------------------------------------------------------------------------------------------
+# large grids with narrow coordinate storage
+# ----------------------------------------------------------------------------------------------
+
+
+@st.composite
+def big_int8_case(draw, sizes=(33, 40, 63, 64, 65, 100, 127), shortest=True):
+    """a maze on a grid large enough for int8 coordinate arithmetic to matter (2*c+1, c1+c2, unit*c beyond 127): a serpentine corridor
+    plus drawn extra connections; the solution is one of the model's shortest paths between two far cells (or, with shortest=False,
+    possibly the corridor itself - the long way round). The case asks for int8 coordinate storage, the dtype the library's
+    minimal-format loader produces."""
+    n = draw(st.sampled_from(list(sizes)))
+    order = []
+    for i in range(n):
+        cols = range(n) if i % 2 == 0 else range(n - 1, -1, -1)
+        order += [(i, j) for j in cols]
+    bits = [0] * (2 * n * n)
+    for u, v in zip(order[:-1], order[1:]):
+        bits[M.edge_bit(n, n, u, v)] = 1
+    for _ in range(draw(st.integers(0, 12))):
+        i, j = draw(st.integers(0, n - 2)), draw(st.integers(0, n - 1))
+        bits[M.edge_bit(n, n, (i, j), (i + 1, j))] = 1
+    g = M.g_make(n, n, bits)
+    a = M.adj(g)
+    lo_cell = (draw(st.integers(0, 2)), draw(st.integers(0, n - 1)))
+    hi_cell = (draw(st.integers(n - 3, n - 1)), draw(st.integers(0, n - 1)))
+    s, e = (lo_cell, hi_cell) if draw(st.booleans()) else (hi_cell, lo_cell)
+    if not shortest and draw(st.booleans()):
+        k0, k1 = sorted((order.index(s), order.index(e)))
+        sol = order[k0 : k1 + 1]
+    else:
+        sol = M.shortest_path(a, s, e)
+    return {"g": g, "sol": [list(q) for q in sol], "dtype": "int8"}
